@@ -169,13 +169,13 @@ EXTRA_CONFS = [
 _RESP = {   # honest initiator A, deviant responder B
     'handshake': [('init', ['sa_extra_transform', 'invalid_ke_31', 'invalid_ke_14', 'drop_ke', 'drop_nonce', 'drop_sa',
                             'no_proposal_chosen', 'add_unknown_notify', 'add_error_notify', 'nonce_short', 'ke_group_14']),
-                  ('auth', ['id_data', 'id_type', 'auth_garbage', 'auth_method', 'ts_wider', 'ts_other_port', 'mode_flip',
-                            'sa_extra_transform', 'sa_spi_long', 'drop_sa', 'drop_tsi', 'drop_tsr', 'drop_auth', 'drop_id',
+                  ('auth', ['id_data', 'id_type', 'id_case', 'auth_garbage', 'auth_method', 'ts_wider', 'ts_other_port',
+                            'mode_flip', 'sa_extra_transform', 'sa_spi_long', 'sa_spi_short', 'drop_sa', 'drop_tsi', 'drop_tsr', 'drop_auth', 'drop_id',
                             'no_proposal_chosen', 'ts_unacceptable', 'authentication_failed', 'add_error_notify',
                             'add_unknown_notify', 'add_vendor', 'empty'])],
     'new_child': [('child', ['ts_wider', 'ts_other_port', 'mode_flip', 'sa_extra_transform', 'no_additional_sas',
                              'temporary_failure', 'invalid_ke_14', 'drop_nonce', 'drop_sa', 'drop_tsi', 'sa_spi_long',
-                             'no_proposal_chosen', 'ts_unacceptable', 'add_error_notify', 'empty'])],
+                             'sa_spi_short', 'no_proposal_chosen', 'ts_unacceptable', 'add_error_notify', 'empty'])],
     'rekey_child': [('child', ['ts_wider', 'mode_flip', 'sa_extra_transform', 'child_sa_not_found', 'temporary_failure',
                                'no_additional_sas', 'drop_nonce', 'sa_spi_long', 'empty']),
                     ('info', ['delete_unknown_spi', 'drop_delete', 'delete_twice', 'add_error_notify'])],
@@ -188,11 +188,12 @@ _RESP = {   # honest initiator A, deviant responder B
 _REQ = {    # honest responder B, deviant initiator A
     'handshake': [('init', ['sa_unsupported', 'drop_ke', 'drop_nonce', 'drop_sa', 'ke_group_14', 'nonce_short',
                             'add_vendor', 'add_unknown_notify', 'add_error_notify', 'empty']),
-                  ('auth', ['id_data', 'id_type', 'auth_garbage', 'auth_method', 'ts_elsewhere', 'ts_wider',
-                            'ts_other_port', 'mode_flip', 'sa_unsupported', 'sa_extra_transform', 'drop_tsi', 'drop_tsr',
+                  ('auth', ['id_data', 'id_type', 'id_case', 'auth_garbage', 'auth_method', 'ts_elsewhere', 'ts_wider',
+                            'ts_other_port', 'mode_flip', 'sa_unsupported', 'sa_extra_transform', 'sa_spi_short',
+                            'sa_spi_long', 'drop_tsi', 'drop_tsr',
                             'drop_auth', 'drop_id', 'drop_sa', 'add_vendor', 'add_error_notify', 'empty'])],
     'new_child': [('child', ['ts_elsewhere', 'ts_wider', 'ts_other_port', 'mode_flip', 'sa_unsupported', 'drop_nonce',
-                             'drop_sa', 'drop_tsi', 'add_error_notify', 'empty'])],
+                             'drop_sa', 'drop_tsi', 'add_error_notify', 'sa_spi_short', 'sa_spi_long', 'empty'])],
     'rekey_child': [('child', ['rekey_unknown_spi', 'ts_other_port', 'ts_wider', 'mode_flip', 'sa_unsupported',
                                'drop_nonce', 'empty']),
                     ('info', ['delete_unknown_spi', 'delete_twice', 'drop_delete', 'empty'])],
@@ -233,6 +234,24 @@ def deviant_set(deep, seed=0):
                 for name in names:
                     out.append((f'dev{side}/{base}/{exch}/{name}', [['mutate', side, name, exch, is_req]] + scripted(base)
                                 + tail, {}, 11, {side}))
+    # a CREATE_CHILD_SA request on the OLD IKE_SA after an IKE_SA rekey, instead of its DELETE (the old IKE_SA of the
+    # honest side is REKEYED: it has no timer, so anything it accepted would never be cleaned up)
+    for side, base in (('A', 'rekey_ike'), ('B', 'rekey_ike_from_responder')):
+        out.append((f'dev{side}/{base}/old_sa_child_request',
+                    [['mutate', side, 'as_new_child_request', 'info', True], ['mutate', side, 'exch_36', 'info', True]]
+                    + scripted(base) + tail, {}, 11, {side}))
+    # a responder that rejects the KE group STATELESSLY (as RFC 7296 wants; pyikev2's own responder drops the IKE_SA) and
+    # then accepts the retry: IKE_SA rekey and CHILD_SA creation with PFS; the new SA is used afterwards
+    use = [['acquire', 'A', 83], ['deliver', 0], ['deliver', 0], ['expire', 'B', 0, 0]] + [['deliver', 0]] * 4
+    for side, honest, base, conf in (
+            ('B', 'A', 'rekey_ike', {'dh': ('ecp256', '14'), 'dh_b': ('14', 'ecp256')}),
+            ('A', 'B', 'rekey_ike_from_responder', {'dh': ('14', 'ecp256'), 'dh_b': ('ecp256', '14')}),
+            ('B', 'A', 'new_child', {'child_dh': ('ecp256', '14'), 'child_dh_b': ('14', 'ecp256')}),
+            ('B', 'A', 'rekey_child', {'child_dh': ('ecp256', '14'), 'child_dh_b': ('14', 'ecp256')})):
+        # (with different IKE DH preferences the initial exchange itself needs the INVALID_KE_PAYLOAD round)
+        acts = [['acquire', 'A', 80]] + [['deliver', 0]] * 6 + scripted(base)[5:]
+        out.append((f'dev{side}/{base}/stateless_invalid_ke', [['mutate', side, 'stateless_invalid_ke_14', 'child', None]]
+                    + acts + [['deliver', 0]] * 4 + use + tail, conf, 20, {side}))
     # some deviations need a configuration to bite (PFS, a second DH group, tunnel mode)
     for side, is_req, name, exch, base, conf in (
             ('B', False, 'invalid_ke_14', 'init', 'handshake', {'dh': ('ecp256', '14')}),
